@@ -57,7 +57,46 @@ var c04Templates = []string{
 	"<" + hA + hA + hA + ">",             // 26
 }
 
+// c04Long: size boundaries. A run of n copies of a filler between an opener and a
+// closer (kind 3: "[" x^n "]"; kind 4: "[a][" x^n "]"; kind 5: n nested "[";
+// kind 6: a^n "@" b "." c as an autolink-like word; kind 7: "&#" 9^n ";"), with
+// one symbolic byte in front so that the path is not a single concrete run.
+func c04Long(kind, n int) []byte {
+	b := []byte{nondetByte()}
+	rep := func(c byte, k int) {
+		for i := 0; i < k; i++ {
+			b = append(b, c)
+		}
+	}
+	switch kind {
+	case 3:
+		b = append(b, '[')
+		rep('x', n)
+		b = append(b, ']', '\n')
+	case 4:
+		b = append(b, "[a]["...)
+		rep('x', n)
+		b = append(b, ']', '\n')
+	case 5:
+		rep('[', n)
+		b = append(b, 'a')
+		rep(']', n)
+	case 6:
+		b = append(b, '<')
+		rep('a', n)
+		b = append(b, "@b.c>"...)
+	default:
+		b = append(b, "&#"...)
+		rep('9', n)
+		b = append(b, ';')
+	}
+	return b
+}
+
 func c04Input(kind, a int) []byte {
+	if kind >= 3 {
+		return c04Long(kind, a)
+	}
 	switch kind {
 	case 0:
 		return nondetBytes(a)
